@@ -7,6 +7,18 @@ VERIF = os.path.dirname(os.path.dirname(os.path.abspath(__file__)))
 ALL = [f"C{i:02d}" for i in range(1, 21)]
 
 CLAIMED = {
+    "C06": {
+        "text": "Coq theorems about an executable model of ip_pool.go for every prefix /1../30, every base and every alloc/release "
+                "sequence: conservation (free ++ held is a permutation of the pool at every reachable state), addresses strictly "
+                "between network and broadcast, exclusivity, stickiness, exact release, refusal iff nothing is free (then every "
+                "address is held); every interleaving of the atomic methods is an op sequence, so the invariant covers all schedules. "
+                "Tie: differential run (results, FIFO free list, inventory) incl. all sequences <= 5 (7 thorough) ops on a /30, random "
+                "pools, and a race-detector stress with linearization-free oracles.",
+        "design_ref": "DESIGN.md section 5, C06",
+        "note": "Trusted: Coq kernel, Model/IPPool.v (Go map as unique-key association list; net.ParseCIDR outside the model), overlay "
+                "harness. Atomicity of methods is a syntactic source tie + race detector, not a proof about the Go memory model. No axioms.",
+        "technique": "Coq proof (permutation invariant by induction over operation sequences) + differential correspondence",
+    },
     "C17": {
         "text": "Coq theorems over all 2^32 (lo,hi), all ports and both strategies: accepted expansions are exact and pairwise "
                 "disjoint (count = 1 inside, 0 outside), Exact refuses iff a true range is wider than 100, Ternary never refuses, "
